@@ -975,6 +975,19 @@ struct Runner {
       permuted["items"] = items;
       if (items != src) permutedLoad = true;
     }
+    {  // the (child, parent) pairs of different operations interleaved; the two pairs of one operation keep their order
+      const auto& src = saved.at("connections");
+      std::vector<size_t> idx(src.size());
+      for (size_t i = 0; i < idx.size(); ++i) idx[i] = i;
+      auto key = [&](size_t i) { return o.perm.empty() ? static_cast<int>(i) : (o.perm[i % o.perm.size()] * 5 + static_cast<int>(i % 3)) % 11; };
+      std::stable_sort(idx.begin(), idx.end(), [&](size_t a, size_t b) { return key(a) < key(b); });
+      std::map<uint64_t, std::vector<JSON>> byChild; std::map<uint64_t, size_t> next;
+      for (const auto& e : src) byChild[e.at(0).get<uint64_t>()].push_back(e);
+      JSON conns = JSON::array();
+      for (auto i : idx) { const auto ch = src.at(i).at(0).get<uint64_t>(); conns += byChild[ch][next[ch]++]; }
+      permuted["connections"] = conns;
+      if (conns != src) labels.insert("load:connections-interleaved");
+    }
     w.dropOss();
     w.newOss();
     permuted.get_to(oss());
